@@ -59,7 +59,7 @@ try:
         report["checks"] = caught
         report["caught_by"] = sorted(c for c, v in caught.items() if any(x["rc"] == 1 for x in v.values()))
     if not a.no_suite and a.mode != "checks":
-        t = sh(f"BSL_REPO={wt} /venv/bin/python {ROOT}/tools/baseline_compare.py 8")
+        t = sh(f"BSL_REPO={wt} /venv/bin/python {ROOT}/tools/baseline_compare.py " + os.environ.get("BSL_N", "8"))
         report["suite_with_change"] = t.stdout.strip()[-600:]
         report["suite_passes"] = t.returncode == 0
 finally:
